@@ -436,6 +436,10 @@ class Project:
         extracted (non-baseline) helpers inlined, unless raw=True."""
         fi = self.funcs.get(qual) or self.funcs.get(f"{PKG}.{qual}")
         if fi is None:
+            alias = self._follow_import(qual)
+            if alias is not None and alias in self.funcs:
+                fi = self.funcs[alias]
+        if fi is None:
             raise AnalysisError(f"anchor function {qual} not found in {self.root}")
         if raw or os.environ.get("SA_NO_INLINE"):
             return fi
@@ -446,6 +450,24 @@ class Project:
             return self._inliner.view(fi)
         except RecursionError:
             return fi
+
+    def _follow_import(self, qual: str, depth: int = 0) -> Optional[str]:
+        """'module:name' where the module only imports `name` (a function or class that was moved and is re-exported under
+        its old name, possibly renamed with `as`): the qualified name of the definition it stands for"""
+        if depth > 5 or ":" not in qual:
+            return None
+        mod, name = qual.split(":", 1)
+        m = self.modules.get(mod) or self.modules.get(f"{PKG}.{mod}")
+        if m is None:
+            return None
+        head, _, rest = name.partition(".")
+        tgt = m.imports.get(head)
+        if not tgt or ":" not in tgt:
+            return None
+        q2 = tgt + (f".{rest}" if rest else "")
+        if q2 in self.funcs or q2 in self.classes:
+            return q2
+        return self._follow_import(q2, depth + 1)
 
     def maybe_func(self, qual: str) -> Optional[FuncInfo]:
         try:
@@ -459,6 +481,9 @@ class Project:
         q2 = f"{PKG}.{qual}"
         if q2 in self.classes:
             return self.classes[q2]
+        alias = self._follow_import(qual)
+        if alias is not None and alias in self.classes:
+            return self.classes[alias]
         raise AnalysisError(f"anchor class {qual} not found in {self.root}")
 
     def module(self, name: str) -> Module:
